@@ -111,7 +111,9 @@ Seg(s, n) == [s |-> s, nl |-> n]
 Pre13 == {Seg("a\nb\n", 2), Seg("text ", 0), Seg("{{ \"x\ny\" }}", 1), Seg("{{-- c\n\n --}}", 2), Seg("r$r$\n", 1),
           Seg("{{\n1\n+\n2\n}}", 4), Seg("@if(true)\nA\n@end\n", 3), Seg("@each(q in [1,2])\n{{ q }}\n@end", 2),
           Seg("{{ 'p\n\nq' }}\n", 3), Seg("\\{{ x\n", 1), Seg("@if(false)\nA\n@elseif(true)\nB\n@else\nC\n@end", 6),
-          Seg("$e$$u$\n", 1), Seg("@if(false){{ zz + ob.nope + 1 / 0 }}{{ \"s\".nope() }}@end\n", 1), Seg("{{ [1,\n2] }}", 1), Seg("\n\n\n", 3)}
+          Seg("$e$$u$\n", 1), Seg("@if(false){{ zz + ob.nope + 1 / 0 }}{{ \"s\".nope() }}@end\n", 1), Seg("{{ [1,\n2] }}", 1), Seg("\n\n\n", 3),
+          \* CR LF line ends inside code (a {{ }} block, directive arguments, a literal)
+          Seg("{{ 1 +$r$\n2 }}$r$\n", 2), Seg("@if(true$r$\n)x@end", 1), Seg("{{ [1,$r$\n2,$r$\n3] }}", 2)}
 \* (one preamble mentions the names used by the faults earlier, in a branch that is not taken)
 \* single-line faults; rt = raised at run time (must be reached), otherwise at parse time
 Faults13 == {[s |-> "{{ zz }}", rt |-> TRUE, k |-> "undefined-identifier", dl |-> 0],
